@@ -41,13 +41,15 @@ AT = "⟨AT⟩"
 UNQ = ["a@", "fn_@", "a-@.b", "@", "x@/y", "-D@=1", "k@=v", "=@", "a@:b", "<@>", "a@,b", "é@ü", "x@*", "a\\ b@", "\\(@\\)", "\\#@",
        "\\\"@", "\\\\@", "a\\;b@", "a;b@", "\\t@", "\\n@\\r", "\\$@", "\\" + AT + "@", AT + "VAR@" + AT, "a[@", "@]", "a[[@]]", "[x@",
        "[=x@", "a@=[b", "$<@>", "$ENV{E@}", "${v@}", "${${n@}}", "pre${v@}post", "a@\\ ", "漢字@", "\\[@", "\\]@", "~@", "a@'b", "`@`",
-       "a@|b", "&@", "%@%", "!@", "^@", "{@}", "a@?"]
+       "a@|b", "&@", "%@%", "!@", "^@", "{@}", "a@?",
+       "ff\x0c@", "vt\x0b@x", "nel\x85@", "ls\u2028@", "ps\u2029@", "nbsp\xa0@", "zw\u200b@", "fs\x1c@"]
 QUO = ['"q@"', '"two words @"', '"a;b;@"', '"#@"', '"# ; [ ] $ ' + AT + ' < > ( ) @"', '"@ ${v}"', '"esc\\"@"', '"(@)"', '"[[@]]"',
        '" @ "', '"tab\\t@\\n\\r\\;"', '"$<@>"', '"ü漢@"', '""', '"\\\\@"', '"\\(\\)\\#@"', '"line1 @\\\nline2"', '"a@\nb"',
-       '"#[[ not a comment @ ]]"', '"#[[[ not doc @"', '"\\ @"', '"a@\\\r\nb"', '"' + AT + '@' + AT + '"', '"\\$@"', '"]]@"', '"[=[@"', '"lit\ttab  @"', '"trailing space @ "']
+       '"#[[ not a comment @ ]]"', '"#[[[ not doc @"', '"\\ @"', '"a@\\\r\nb"', '"' + AT + '@' + AT + '"', '"\\$@"', '"]]@"', '"[=[@"', '"lit\ttab  @"', '"trailing space @ "', '"ff\x0c @"',
+       '"ls\u2028 nel\x85 @"', '"vt\x0b@"']
 BRK = ["[[b@]]", "[=[b@]=]", "[=[x]]@]=]", "[[b @ c]]", "[==[]=]@]==]", "[[(@]]", '[["@]]', "[[#@]]", "[[\n@\nline]]", "[=[\n]]@]=]",
        "[===[ ]==] ]=] ]] @ ]===]", "[[${v@} \\n \\x]]", "[[]]", "[=[]=]", "[[a@]b]]", "[=[a@]=b]=]", "[[ü漢@]]", "[[#[[@]]",
-       "[=[[[@]]]=]", "[[;@;]]", "[[\t@ \t]]", "[[  @  ]]"]
+       "[=[[[@]]]=]", "[[;@;]]", "[[\t@ \t]]", "[[  @  ]]", "[[ff\x0c@\u2028]]"]
 POOL = UNQ + UNQ + QUO + BRK
 
 
